@@ -58,6 +58,16 @@ func buildC03(tier string, seed int64) *Family {
 		}
 		add(t, cfgBig)
 	}
+	// a numeric first predicate followed by a boolean one on a child step with several parents
+	// (systematic: no merge query is built for this shape, the step keeps its own counter)
+	for i, p := range []string{"1", "2", "last()", "last() - 1", "position() = 2"} {
+		for j, c := range []string{"//a", "*/*", "//*", "/*/*", "a/*"} {
+			if tier != "thorough" && (i+j)%2 != 0 {
+				continue
+			}
+			add(c+"["+p+"]["+bools[(i+j)%len(bools)]+"]", cfg)
+		}
+	}
 	// a positional step reached through '//' or a path and followed by further steps: the
 	// counter restarts per parent whatever comes after the step
 	contCfg := docCfg{N: cfg.N, A: 0, Names: "a,b", Pool: ","}
